@@ -197,6 +197,25 @@ pub fn new_la_egraph(run: &Run) -> EGraph<LA, SimAn> {
     }
 }
 
+/// naming kind 9: the names of some class slots, for rule slots that only a right side mentions
+pub fn set_naming_hint(s: &Sess<LA, SimAn>) {
+    let mut v: Vec<Slot> = Vec::new();
+    if s.nm.kind == 9 {
+        let mut ids = s.eg.ids();
+        ids.sort();
+        for id in ids.iter().rev() {
+            let mut sl: Vec<Slot> = s.eg.slots(*id).iter().copied().collect();
+            sl.sort();
+            for x in sl {
+                if !v.contains(&x) && v.len() < 6 {
+                    v.push(x);
+                }
+            }
+        }
+    }
+    NAMING_HINT.with(|h| *h.borrow_mut() = v);
+}
+
 pub fn make_rules(run: &Run, idxs: &[i64], nm: &mut Naming, probe_budget: Rc<RefCell<u64>>) -> Vec<Rewrite<LA, SimAn>> {
     let p = run.get("p").clamp(2, 11) as u32;
     let pool = rule_pool(p);
@@ -245,6 +264,7 @@ pub fn exec_la_op(s: &mut Sess<LA, SimAn>, op: &Op, run: &Run, pb: &Rc<RefCell<u
         }
         "runner" => {
             // the same rules driven by Runner::run for a few iterations (i[0] = iteration limit)
+            set_naming_hint(s);
             let rules = make_rules(run, &op.i[1..], &mut s.nm, pb.clone());
             let eg = std::mem::replace(&mut s.eg, new_la_egraph(run));
             let an = SimAn { p: run.get("p").clamp(2, 11) as u32, modify: run.get("modify") != 0 };
@@ -262,6 +282,7 @@ pub fn exec_la_op(s: &mut Sess<LA, SimAn>, op: &Op, run: &Run, pb: &Rc<RefCell<u
             Some(true)
         }
         "rewrite" => {
+            set_naming_hint(s);
             let rules = make_rules(run, &op.i, &mut s.nm, pb.clone());
             if run.get("probes") != 0 {
                 MAKE_PROBE.with(|m| m.set(run.get("probes") as u64));
@@ -470,6 +491,10 @@ impl Check for RwCheck {
                 let mut w = Rng::stream(seed, "naming");
                 run.set("naming", 0);
                 run.set("naming_b", 1 + w.below(NAMING_KINDS as usize - 1) as i64);
+                if w.chance(1, 4) {
+                    // rule slots spelled like class slots read off the e-graph
+                    run.set("naming_b", 9);
+                }
             }
             // C07S: the modify hook unites without a justification, and the proof checker has no
             // instance test for the b[x := t] form
